@@ -162,7 +162,7 @@ func Native(ops []Op, partial, inplace bool) func(context.Context, match.Binding
 		exe := core.NewExecution(nil)
 		fail := func(err error) (*core.Execution, error) {
 			if partial {
-				if inplace && len(ops)%3 == 0 {
+				if inplace {
 					// (worked on the given map, hands back a copy of what it made of it)
 					exe.Bs = cur.Copy()
 					return exe, err
@@ -356,7 +356,7 @@ func EncNode(an *ANode) interface{} {
 			brs = append(brs, O{"pat": pat, "guard": EncOps(b.Guard), "target": encTarget(b.Target)})
 		}
 	}
-	return O{"act": EncOps(an.Act), "native": an.Native, "partial": an.Native && an.Partial && ((an.InPlace && len(an.Act)%3 == 0) || len(an.Act)%2 == 0) /* whether the failing execution carries events: see Native */, "btype": bt, "branches": brs}
+	return O{"act": EncOps(an.Act), "native": an.Native, "partial": an.Native && an.Partial && (an.InPlace || len(an.Act)%2 == 0) /* whether the failing execution carries events: see Native */, "btype": bt, "branches": brs}
 }
 
 // EncSpec encodes the abstract spec as compiled (Compile adds an empty "error" node).
